@@ -3176,6 +3176,27 @@ def pss_post(c, p):
     return and_(eq(tail1, want), or_(not_(eliciting), eq(c.ex.read_key(st, F("largest_ack_eliciting_sent"), BV64).t, c.inp("_2", BV64))))
 
 
+# ------------------------------------------------------------------ C12: a packet the space forgets about leaves the in-flight accounting (PathData::sent)
+def pdsf_post(c, p):
+    st = p.p.state
+    if p.p.outcome != "return":
+        return "true"
+    ins = [x for x in st.calls if re.search(r"InFlight::insert$", x[0])]
+    sent = [x for x in st.calls if re.search(r"PacketSpace::sent$", x[0])]
+    if len(ins) != 1 or len(sent) != 1 or st.calls.index(ins[0]) > st.calls.index(sent[0]):
+        return "false"
+    some = eq(c.ex.read_key(st, sent[0][2] + "#discr", I64).t, bv(1))
+    removed = any(re.search(r"remove_in_flight$|InFlight::remove$", x[0]) for x in st.calls[st.calls.index(sent[0]) + 1:])
+    return or_(not_(some), "true" if removed else "false")
+
+
+Q(name="e2_pathdata_sent_forgotten_leaves_in_flight", props=["C12"], func=r"paths\.rs:\d+:1: \d+:14>::sent$",
+  allowed_panics=r".", ignore_untranslatable=r".",
+  functions=["PathData::sent"], pre=lambda c: "true", post=pdsf_post,
+  bounds="every packet and every state of the path and of the packet-number space (PacketSpace::sent opaque, both outcomes): the packet sent is added to the in-flight counters exactly once, and whenever the space hands back a packet it will no longer track (the oldest of more than 1000 unacknowledged packets nobody is obliged to acknowledge) that packet is taken out of the in-flight counters unconditionally - nothing will ever acknowledge or lose it, so bytes in flight would never return to zero otherwise",
+  replay=("path_sent_forgotten_native", lambda m: [dict(n=1100, size=108)]))
+
+
 Q(name="e2_packet_space_sent_tail_counter", props=["C03", "C12"], func=r"spaces\.rs:\d+:1: \d+:17>::sent$",
   allowed_panics=r"unwrap_failed|attempt to compute", ignore_untranslatable=r"debug_assert|Transmute",
   functions=["PacketSpace::sent"], pre=lambda c: ule(c.inp("*_1.%d" % c.field("connection/spaces.rs", "PacketSpace", "unacked_non_ack_eliciting_tail"), BV64), bv(1 << 32)), post=pss_post,
